@@ -744,9 +744,13 @@ def run(prop, tier):
     if prop in violations:
         v = violations[prop]
         res.add_violation(v["what"], v)
+    elif tie is not None and not tie["ok"] and not mismatches:
+        res.tie_undischarged("translation tie broken: %s -- every recorded trace was accepted by the Coq monitor and the statement held on all %d real runs" % (tie["detail"][:700], len(results)),
+                             {"no_longer_checks": "TieLoops.v (worker loop, stop polling, queue / join programs)" + (" / TieSavers.v (writer and joiner methods)" if prop == "C13" else ""),
+                              "tie_detail": tie["detail"]})
     elif tie is not None and not tie["ok"]:
-        res.add_violation("translation tie broken: %s -- the statement itself held on all %d real runs" % (tie["detail"][:700], len(results)),
-                          {"no_longer_checks": "TieSavers.v (StreamSaverWorker._process_message / _write_cached_data / drain loop, AudioEventsJoinerWorker._write_audio_event)",
+        res.add_violation("translation tie broken: %s; correspondence with the interleaving model broken: %s -- the statement itself held on all %d real runs" % (tie["detail"][:500], mismatches[0]["what"], len(results)),
+                          {"no_longer_checks": "TieLoops.v / TieSavers.v and the trace-monitor correspondence",
                            "tie_detail": tie["detail"], "first_mismatches": mismatches[:2]}, no_input=True)
     elif mismatches:
         m = mismatches[0]
